@@ -217,9 +217,28 @@ func init() {
 			un := fr + rnd.Int63n(ret+2)
 			qs = append(qs, q{[]string{fmt.Sprint(a), fmt.Sprint(fr), fmt.Sprint(un), fmt.Sprint(now)}})
 		}
+		// every third query is a raw read of an archive (GetAllRawUnsortedPoints) instead of a fetch
+		ask := func(i int) string {
+			if i%3 == 2 {
+				a := int(atoi(qs[i].args[0]))
+				if a < 0 {
+					a = 0
+				}
+				pts, err := f.db.GetAllRawUnsortedPoints(a)
+				if err != nil {
+					return "rawerr"
+				}
+				var sb strings.Builder
+				for _, p := range pts {
+					fmt.Fprintf(&sb, "%d:%s ", uint32(p.Time), showBits(p.Value))
+				}
+				return sb.String()
+			}
+			return fetchObs(f.db, qs[i].args)
+		}
 		seq := make([]string, r)
 		for i := range qs {
-			seq[i] = fetchObs(f.db, qs[i].args)
+			seq[i] = ask(i)
 		}
 		var wg sync.WaitGroup
 		var bad int32
@@ -229,7 +248,7 @@ func init() {
 				defer wg.Done()
 				for j := 0; j < r; j++ {
 					i := (j + g) % r
-					if fetchObs(f.db, qs[i].args) != seq[i] {
+					if ask(i) != seq[i] {
 						atomic.AddInt32(&bad, 1)
 					}
 				}
